@@ -461,6 +461,9 @@ fn mt_run_one(cfg: &Value, out: &mut impl Write) -> usize {
         let (vi, gnt) = cands[pick].clone();
         let tv = v[vi].clone();
         last = Some(tv.tid);
+        // block threads with a pending notification on offer before this grant
+        let nf: Vec<usize> = v.iter().filter(|t| t.enabled.contains(&Grant::Notified))
+            .filter_map(|t| t.name.strip_prefix('b').and_then(|x| x.parse().ok())).collect();
         ctl.grant(tv.tid, gnt.clone());
         let after = ctl.settle(1);
         let exited = !after.iter().any(|t| t.tid == tv.tid);
@@ -470,7 +473,7 @@ fn mt_run_one(cfg: &Value, out: &mut impl Write) -> usize {
             Point::Named(x) => x.to_string(),
             p => p.kind(),
         };
-        writeln!(out, "{}", json!({"t": if b > 0 { "b".to_string() } else { tv.name.clone() }, "b": b, "pt": pt, "g": grant_name(&gnt), "evs": evs, "exited": exited})).unwrap();
+        writeln!(out, "{}", json!({"t": if b > 0 { "b".to_string() } else { tv.name.clone() }, "b": b, "pt": pt, "g": grant_name(&gnt), "evs": evs, "exited": exited, "nf": nf})).unwrap();
         steps += 1;
         if steps > budget {
             writeln!(out, "{}", json!({"t": "-", "pt": "budget", "g": "go", "evs": [], "exited": false, "b": 0})).unwrap();
